@@ -242,7 +242,8 @@ proof fn lemma_close_live(c: Seq<ZoomRecord>, l: ZoomRecord, h: Seq<Value>, cs: 
 }
 /// what one tiling step does to the open record, transcribed as a relation:
 /// `base` = the open record or a fresh one at a0; a1 = min(base.start+size, ce);
-/// if a1 >= a0 the record is extended to a1 and gains a1-a0 bases.
+/// if a1 > a0 the record is extended to a1 and gains a1-a0 bases; otherwise it is left alone
+/// (C07: a record's statistics are those of the values INSIDE its span).
 spec fn step_rel(live0: Option<ZoomRecord>, l1: ZoomRecord, a0: int, a1: int, ce: int, size: int, chrom: u32) -> bool {
     let fresh = live0.is_none();
     let bs = if fresh { a0 } else { live0.unwrap().start as int };
@@ -252,8 +253,8 @@ spec fn step_rel(live0: Option<ZoomRecord>, l1: ZoomRecord, a0: int, a1: int, ce
     &&& a1 == imin(bs + size, ce)
     &&& l1.start == bs
     &&& l1.chrom == bch
-    &&& (a1 >= a0 ==> l1.end == a1 && l1.summary.bases_covered as int == bbc + (a1 - a0))
-    &&& (a1 < a0 ==> l1.end == be && l1.summary.bases_covered as int == bbc)
+    &&& (a1 > a0 ==> l1.end == a1 && l1.summary.bases_covered as int == bbc + (a1 - a0))
+    &&& (a1 <= a0 ==> l1.end == be && l1.summary.bases_covered as int == bbc)
 }
 proof fn lemma_step(c: Seq<ZoomRecord>, live0: Option<ZoomRecord>, l1: ZoomRecord, h: Seq<Value>, cs: int, a0: int, a1: int, ce: int, size: u32, chrom: u32, ib: int)
     requires
@@ -279,7 +280,7 @@ proof fn lemma_step(c: Seq<ZoomRecord>, live0: Option<ZoomRecord>, l1: ZoomRecor
         lemma_cov_zero_after(h, a0, a1, cs);
     } else {
         let l0 = live0.unwrap();
-        if a1 >= a0 {
+        if a1 > a0 {
             lemma_cov_extend(h, l0.start as int, l0.end as int, a1, l0.end as int);
         }
     }
@@ -383,7 +384,7 @@ proof fn lemma_step(c: Seq<ZoomRecord>, live0: Option<ZoomRecord>, l1: ZoomRecor
             proof { float_ax::float_det(); }
             let ghost c_mid = closed_of(*zoom_item);
             let ghost live0 = zoom_item.live_info;
-//@at /if add_end >= add_start \{/ before
+//@at /if add_end >=? add_start \{/ before
             let ghost sum0 = zoom2.summary.sum;
             let ghost ssq0 = zoom2.summary.sum_squares;
             let ghost min0 = zoom2.summary.min_val;
@@ -394,6 +395,7 @@ proof fn lemma_step(c: Seq<ZoomRecord>, live0: Option<ZoomRecord>, l1: ZoomRecor
                     // float fields: shape pinned over uninterpreted float operators (C07 "sum, sum of squares, min, max")
                     let w = f64::from_spec((add_end - add_start) as u32);
                     let x = f64::from_spec(current_val.value);
+                    assert(add_end > add_start); [[L: shape/record_only_absorbs_values_with_bases_inside_it]]
                     assert(zoom2.summary.sum == sum0.add_spec(w.mul_spec(x))); [[L: shape/sum_weighted_by_added_bases]]
                     assert(zoom2.summary.sum_squares == ssq0.add_spec(w.mul_spec(x).mul_spec(x))); [[L: shape/sum_squares]]
                     assert(zoom2.summary.min_val == fmin(min0, x)); [[L: shape/min]]
